@@ -101,8 +101,10 @@ func (f *Func) String() string {
 
 // Type returns the type of the function.
 func (f *Func) Type() types.Type {
-	// Cache type if not present.
-	if f.Typ == nil {
+	// Cache type if not present. The address space can only be set through the
+	// AddrSpace field, after the constructor has cached the type; a cached type
+	// of another address space is replaced (not edited: it may be shared).
+	if f.Typ == nil || f.Typ.AddrSpace != f.AddrSpace {
 		f.Typ = types.NewPointer(f.Sig)
 		f.Typ.AddrSpace = f.AddrSpace
 	}
